@@ -25,6 +25,8 @@ import (
 // witnesses runs the named probe.
 func witnesses(w *world, in *blockInput) {
 	switch in.Witness {
+	case "dirty-cache":
+		w.dirtyProbes()
 	case "deploy-destroyed":
 		w.deployDestroyed()
 	case "tx":
